@@ -19,12 +19,12 @@ using namespace ::std;
 namespace detail {
     inline int draw_patience() {
         uint8_t b = ::vrt::rt().aux_byte();
-        if (b == 0) return -1;          // keep waiting until nothing else can run
+        if (b == 0) return 80;          // virtual time passes with steps: every timed wait gives up eventually
         return (b - 1) % 6;             // give up after that many further scheduler steps
     }
     struct base_mutex {
         ::vrt::MutexCore core;
-        base_mutex() = default;
+        base_mutex() { if (::vrt::rt().active) ::vrt::rt().mutexes.push_back(&core); }
         base_mutex(const base_mutex&) = delete;
         base_mutex& operator=(const base_mutex&) = delete;
         ~base_mutex() {
@@ -33,12 +33,12 @@ namespace detail {
         }
         void acquire_excl() {
             ::vrt::Fiber& f = ::vrt::me();
-            core.owner = f.id; f.held++;
+            core.owner = f.id; f.held++; core.excl_acqs++;
             f.clock.join(core.L); f.clock.join(core.Lr);
         }
         void acquire_shared() {
             ::vrt::Fiber& f = ::vrt::me();
-            core.nshared++; core.shared_by[f.id]++; f.held++;
+            core.nshared++; core.shared_by[f.id]++; f.held++; core.shared_acqs++;
             f.clock.join(core.L);
         }
         void lock() {
@@ -89,7 +89,7 @@ namespace detail {
             ::vrt::Fiber& f = ::vrt::me();
             f.mutex_ops++;
             if (core.owner == f.id) ::vrt::fail("self-deadlock", "timed lock of a non-recursive mutex by its owner");
-            f.timeout_fired = false; f.timed = true; f.patience = -1;
+            f.timeout_fired = false; f.timed = true; f.patience = 80;
             if (!core.can_acquire_excl()) { f.blocking_ops++; ::vrt::rt().res.blocked_events++; f.patience = draw_patience(); }
             f.pend = ::vrt::P_TLOCK; f.pm = &core;
             ::vrt::point();
@@ -140,7 +140,7 @@ namespace detail {
             ::vrt::Fiber& f = ::vrt::me();
             f.mutex_ops++;
             if (core.owner == f.id) ::vrt::fail("self-deadlock", "timed lock_shared by the exclusive owner");
-            f.timeout_fired = false; f.timed = true; f.patience = -1;
+            f.timeout_fired = false; f.timed = true; f.patience = 80;
             if (!core.can_acquire_shared()) { f.blocking_ops++; ::vrt::rt().res.blocked_events++; f.patience = draw_patience(); }
             f.pend = ::vrt::P_TLOCK_SHARED; f.pm = &core;
             ::vrt::point();
@@ -218,6 +218,7 @@ struct condition_variable {
             uint8_t b = ::vrt::rt().aux_byte();
             if ((b & 7) == 5) f.spurious_in = b >> 3;            // rare generated spurious wake-up
             else if (timed && b != 0) f.patience = (b >> 3) % 6; // generated time-out
+            if (timed && f.patience < 0) f.patience = 80;        // virtual time passes with steps
         }
         lk.mutex()->unlock_nopoint();
         f.pend = ::vrt::P_CV; f.pcv = &cv;
